@@ -122,7 +122,9 @@ TrLatLinks ==
                    /\ Clause("C05.up.covers", \A x \in known : SetOfSets(e.up[x]) = {L.ext[j] : j \in L.upS[P(x)]})
                    /\ Clause("C05.lo.covers", \A x \in known : SetOfSets(e.lo[x]) = {L.ext[j] : j \in L.loS[P(x)]})
                    /\ Clause("C05.converse",
-                             \A x, y \in 1..N : (e.exts[y] \in ToSet(e.up[x])) <=> (e.exts[x] \in ToSet(e.lo[y])))
+                             LET upP == UNION {{<<e.exts[x], e.up[x][i]>> : i \in 1..Len(e.up[x])} : x \in 1..N}
+                                 loP == UNION {{<<e.lo[y][i], e.exts[y]>> : i \in 1..Len(e.lo[y])} : y \in 1..N}
+                             IN  upP = loP)
                    /\ Clause("C06.up.shortlex",
                              \A x \in 1..N : \A i \in 1..(Len(e.up[x]) - 1) :
                                  ShortLess(ToSet(e.up[x][i]), ToSet(e.up[x][i + 1])))
@@ -175,7 +177,8 @@ TrPred ==
             /\ LET N == Len(e.exts)
                    X == Sets(e.exts)
                IN  Clause("C08." \o e.name,
-                          \A x \in 1..N : ToSet(e.rows[x]) = {y - 1 : y \in {y \in 1..N : PredHolds(KV, e.name, X[x], X[y])}})
+                          \A i \in 1..Len(e.xs) :
+                              ToSet(e.rows[i]) = {y - 1 : y \in {y \in 1..N : PredHolds(KV, e.name, X[e.xs[i] + 1], X[y])}})
        ELSE OutOfDomain
 (* x <= y iff intent(y) subset of intent(x), on the recorded intents *)
 TrPredIntents ==
@@ -185,7 +188,8 @@ TrPredIntents ==
             /\ LET N == Len(e.ints)
                    Y == Sets(e.ints)
                IN  Clause("C08.le.intents",
-                          \A x \in 1..N : ToSet(e.rows[x]) = {y - 1 : y \in {y \in 1..N : Y[y] \subseteq Y[x]}})
+                          \A i \in 1..Len(e.xs) :
+                              ToSet(e.rows[i]) = {y - 1 : y \in {y \in 1..N : Y[y] \subseteq Y[e.xs[i] + 1]}})
        ELSE OutOfDomain
 
 (* ------------------------------- C09 --------------------------------- *)
